@@ -65,6 +65,61 @@ def _resolve(cls, name, after=None):
     return None, None
 
 
+def _private_helper(cls, f):
+    """`self._name(...)`: a private (single underscore) method the class has -> its function, else None"""
+    if _is_self_attr(f) and f.attr.startswith("_") and not f.attr.startswith("__") and hasattr(cls, f.attr):
+        fn, _ = _resolve(cls, f.attr)
+        if inspect.isfunction(fn):
+            return fn
+    return None
+
+
+def _handler_stmts(cls, kind, name, owner, stmts, out, depth):
+    """translate a statement list of a handler (or of a private helper it calls) into out (sets / tail)"""
+    for st in stmts:
+        if isinstance(st, ast.Pass):
+            continue
+        if isinstance(st, ast.Expr) and isinstance(st.value, ast.Constant):
+            continue  # docstring or `...`
+        if isinstance(st, ast.Return) and st.value is None:
+            return
+        if out["tail"] != "none":
+            raise Unrec("statement after the handler fired/raised: " + ast.unparse(st)[:60])
+        if (isinstance(st, ast.Assign) and len(st.targets) == 1 and _is_self_attr(st.targets[0])
+                and isinstance(st.value, ast.Constant) and st.value.value is True):
+            out["sets"].append(st.targets[0].attr)
+            continue
+        if isinstance(st, ast.Expr) and isinstance(st.value, ast.Call):
+            f = st.value.func
+            if _is_self_attr(f):
+                if not hasattr(cls, f.attr):
+                    out["tail"] = "raise"
+                    out["note"] = f"calls self.{f.attr} which {cls.__name__} does not have"
+                    continue
+                if f.attr in FIRE:
+                    out["tail"] = "fire:" + FIRE[f.attr]
+                    continue
+                helper = _private_helper(cls, f)
+                if helper is not None and depth < 3:
+                    # a private helper shared by the handlers (`self._invalidate()`): its body, inlined
+                    _handler_stmts(cls, kind, name, owner, _fn_ast(helper).body, out, depth + 1)
+                    continue
+                raise Unrec("call of self." + f.attr)
+            # super().handle_x(...)
+            if (isinstance(f, ast.Attribute) and f.attr == name and isinstance(f.value, ast.Call)
+                    and isinstance(f.value.func, ast.Name) and f.value.func.id == "super"
+                    and not f.value.args and depth < 4):
+                sub = translate_handler(cls, kind, after=owner, depth=depth + 1)
+                if not sub["recognised"]:
+                    raise Unrec("super handler: " + sub["note"])
+                out["sets"] += sub["sets"]
+                out["tail"] = sub["tail"]
+                if sub["note"]:
+                    out["note"] = sub["note"]
+                continue
+        raise Unrec(ast.unparse(st)[:80])
+
+
 def translate_handler(cls, kind, after=None, depth=0):
     """-> dict(recognised, sets[list of flag names], tail ('none'|'fire:<k>'|'raise'), note)"""
     name = HANDLERS[kind]
@@ -73,50 +128,57 @@ def translate_handler(cls, kind, after=None, depth=0):
         return {"recognised": True, "sets": [], "tail": "raise", "note": f"{name} missing", "owner": None}
     out = {"recognised": True, "sets": [], "tail": "none", "note": "", "owner": owner.__name__}
     try:
-        node = _fn_ast(fn)
-        for st in node.body:
-            if isinstance(st, ast.Pass):
-                continue
-            if isinstance(st, ast.Expr) and isinstance(st.value, ast.Constant):
-                continue  # docstring or `...`
-            if out["tail"] != "none":
-                raise Unrec("statement after the handler fired/raised: " + ast.unparse(st)[:60])
-            if (isinstance(st, ast.Assign) and len(st.targets) == 1 and _is_self_attr(st.targets[0])
-                    and isinstance(st.value, ast.Constant) and st.value.value is True):
-                out["sets"].append(st.targets[0].attr)
-                continue
-            if isinstance(st, ast.Expr) and isinstance(st.value, ast.Call):
-                f = st.value.func
-                if _is_self_attr(f):
-                    if not hasattr(cls, f.attr):
-                        out["tail"] = "raise"
-                        out["note"] = f"calls self.{f.attr} which {cls.__name__} does not have"
-                        continue
-                    if f.attr in FIRE:
-                        out["tail"] = "fire:" + FIRE[f.attr]
-                        continue
-                    raise Unrec("call of self." + f.attr)
-                # super().handle_x(...)
-                if (isinstance(f, ast.Attribute) and f.attr == name and isinstance(f.value, ast.Call)
-                        and isinstance(f.value.func, ast.Name) and f.value.func.id == "super"
-                        and not f.value.args and depth < 4):
-                    sub = translate_handler(cls, kind, after=owner, depth=depth + 1)
-                    if not sub["recognised"]:
-                        raise Unrec("super handler: " + sub["note"])
-                    out["sets"] += sub["sets"]
-                    out["tail"] = sub["tail"]
-                    if sub["note"]:
-                        out["note"] = sub["note"]
-                    continue
-            raise Unrec(ast.unparse(st)[:80])
+        _handler_stmts(cls, kind, name, owner, _fn_ast(fn).body, out, depth)
+        out["sets"] = list(dict.fromkeys(out["sets"]))
     except (Unrec, OSError, TypeError, SyntaxError, IndentationError) as e:
         out["recognised"] = False
         out["note"] = f"UNRECOGNISED {type(e).__name__}: {e}"
     return out
 
 
+def _flag_of_test(test):
+    """`self.F` or `not self.F` -> "F" """
+    if _is_self_attr(test):
+        return test.attr
+    if isinstance(test, ast.UnaryOp) and isinstance(test.op, ast.Not) and _is_self_attr(test.operand):
+        return test.operand.attr
+    return None
+
+
+def _tests_and_clears(cls, node, depth=0, seen=None):
+    """(flags tested by an `if`, flags reset to False) in a function AND in the private helpers of the class it
+    calls (`self._refresh()`, `self._x` read of a private property), up to three levels"""
+    seen = seen if seen is not None else set()
+    tested, cleared = [], set()
+    for sub in ast.walk(node):
+        if (isinstance(sub, ast.Assign) and len(sub.targets) == 1 and _is_self_attr(sub.targets[0])
+                and isinstance(sub.value, ast.Constant) and sub.value.value is True):
+            cleared.add("+" + sub.targets[0].attr)  # "+F": F is set to True here (a re-entrancy guard, not a cache flag)
+        if isinstance(sub, ast.If):
+            fl = _flag_of_test(sub.test)
+            if fl is not None:
+                tested.append(fl)
+        if (isinstance(sub, ast.Assign) and len(sub.targets) == 1 and _is_self_attr(sub.targets[0])
+                and isinstance(sub.value, ast.Constant) and sub.value.value is False):
+            cleared.add(sub.targets[0].attr)
+        if depth < 3 and _is_self_attr(sub) and sub.attr.startswith("_") and not sub.attr.startswith("__") \
+                and sub.attr not in seen:
+            target, _ = _resolve(cls, sub.attr)
+            fn = target if inspect.isfunction(target) else (target.fget if isinstance(target, property) else None)
+            if fn is not None:
+                seen.add(sub.attr)
+                try:
+                    t2, c2 = _tests_and_clears(cls, _fn_ast(fn), depth + 1, seen)
+                except (Unrec, OSError, TypeError, SyntaxError, IndentationError):
+                    continue
+                tested += t2
+                cleared |= c2
+    return tested, cleared
+
+
 def guards_of(cls):
-    """[(function name, flag, clears)] for `if self.<flag>:` tests in functions/properties of cls"""
+    """[(function name, flag, clears)] for the dirty-flag tests reachable from each function / property of cls
+    (through private helpers of the class; public getters called inside are separate quantities)"""
     res = []
     seen = set()
     for k in inspect.getmro(cls):
@@ -138,17 +200,9 @@ def guards_of(cls):
                     node = _fn_ast(fn)
                 except (Unrec, OSError, TypeError, SyntaxError, IndentationError):
                     continue
-                tested = []
-                for sub in ast.walk(node):
-                    if isinstance(sub, ast.If) and _is_self_attr(sub.test):
-                        tested.append(sub.test.attr)
-                cleared = set()
-                for sub in ast.walk(node):
-                    if (isinstance(sub, ast.Assign) and len(sub.targets) == 1 and _is_self_attr(sub.targets[0])
-                            and isinstance(sub.value, ast.Constant) and sub.value.value is False):
-                        cleared.add(sub.targets[0].attr)
+                tested, cleared = _tests_and_clears(cls, node)
                 for fl in dict.fromkeys(tested):
-                    res.append((name, fl, fl in cleared))
+                    res.append((name, fl, fl in cleared, "+" + fl in cleared))
     return res
 
 
@@ -172,7 +226,8 @@ def clears_after_success(cls):
                 node = _fn_ast(fn)
             except (Unrec, OSError, TypeError, SyntaxError, IndentationError):
                 continue
-            flags = [sub.test.attr for sub in ast.walk(node) if isinstance(sub, ast.If) and _is_self_attr(sub.test)]
+            flags = [_flag_of_test(sub.test) for sub in ast.walk(node)
+                     if isinstance(sub, ast.If) and _flag_of_test(sub.test) is not None]
             for fl in dict.fromkeys(flags):
                 def is_clear(st):
                     return (isinstance(st, ast.Assign) and len(st.targets) == 1 and _is_self_attr(st.targets[0], fl)
@@ -200,13 +255,9 @@ def clears_after_success(cls):
 
 def explicit_regs(cls):
     p = m = False
-    for k in inspect.getmro(cls):
-        if not k.__module__.startswith("torchtree") or "__init__" not in k.__dict__:
-            continue
-        try:
-            node = _fn_ast(k.__dict__["__init__"])
-        except (Unrec, OSError, TypeError, SyntaxError, IndentationError):
-            continue
+
+    def scan(node, depth, seen):
+        nonlocal p, m
         for sub in ast.walk(node):
             if (isinstance(sub, ast.Call) and isinstance(sub.func, ast.Attribute) and len(sub.args) == 1
                     and isinstance(sub.args[0], ast.Name) and sub.args[0].id == "self"):
@@ -214,6 +265,23 @@ def explicit_regs(cls):
                     p = True
                 if sub.func.attr == "add_model_listener":
                     m = True
+            if isinstance(sub, ast.Call) and depth < 3:
+                helper = _private_helper(cls, sub.func)
+                if helper is not None and helper.__name__ not in seen:
+                    seen.add(helper.__name__)
+                    try:
+                        scan(_fn_ast(helper), depth + 1, seen)
+                    except (Unrec, OSError, TypeError, SyntaxError, IndentationError):
+                        pass
+
+    for k in inspect.getmro(cls):
+        if not k.__module__.startswith("torchtree") or "__init__" not in k.__dict__:
+            continue
+        try:
+            node = _fn_ast(k.__dict__["__init__"])
+        except (Unrec, OSError, TypeError, SyntaxError, IndentationError):
+            continue
+        scan(node, 0, set())
     return p, m
 
 
@@ -281,7 +349,11 @@ def describe(cls, bases):
     Parametric, Model, AbstractParameter = bases
     hp = translate_handler(cls, "param")
     hm = translate_handler(cls, "model")
-    gs = guards_of(cls)
+    # a dirty flag is identified by its ROLE, not its spelling: an attribute the handlers set to True (and, for the
+    # guards, one a getter tests); other attributes that happen to be tested (`_firing`, `rescale`, options) are not flags
+    allg = guards_of(cls)
+    dirty = set(hp["sets"] + hm["sets"]) | {g[1] for g in allg if g[2] and not g[3]}
+    gs = [g[:3] for g in allg if g[1] in dirty]
     flags = list(dict.fromkeys(hp["sets"] + hm["sets"] + [g[1] for g in gs]))
     ep, em = explicit_regs(cls)
     return {
@@ -358,7 +430,7 @@ def translate(repo: Path = None):
         "def flagResets : List (String × String × String × Bool) := [\n"
         + ",\n".join(f"  ({lean_str(d['name'])}, {lean_str(fn)}, {lean_str(fl)}, {'true' if okc else 'false'})"
                       for d in table for fn, fl, okc in d["clears_ok"]
-                      if fl in d["onParam"]["sets"] + d["onModel"]["sets"])  # dirty flags: the ones a handler sets
+                      if fl in d["flags"])  # dirty flags: the ones a handler sets
         + "\n]\n\n"
         "def find (n : String) : ClassSpec :=\n"
         "  (classes.find? fun c => c.name == n).getD { (default : ClassSpec) with name := \"?\", "
@@ -568,14 +640,15 @@ def _elbo_cond(e, env):
     return None
 
 
-def _elbo_block(stmts, env):
-    """the estimator the block computes: recognised by the reductions it contains"""
+def _elbo_block(stmts, env, cls=None, depth=0):
+    """the estimator the block computes: recognised by the reductions it contains; private helpers of the class
+    (`return self._multi_sample_bound(samples)`) are followed, early returns fall through"""
     for st in stmts:
         if isinstance(st, ast.If):
             c = _elbo_cond(st.test, env)
             if c is None:
                 return "unknown"
-            r = _elbo_block(st.body if c else st.orelse, env)
+            r = _elbo_block(st.body if c else st.orelse, env, cls, depth)
             if r is not None:
                 return r
             continue
@@ -586,7 +659,15 @@ def _elbo_block(stmts, env):
             return "analytic"
         if "cost * log_q" in src:
             return "score"
-        if ".mean()" in src and "lp" in src.split("=")[0]:
+        if cls is not None and depth < 3:
+            for sub in ast.walk(st):
+                if isinstance(sub, ast.Call):
+                    helper = _private_helper(cls, sub.func)
+                    if helper is not None and helper.__name__ not in ("_call",):
+                        r = _elbo_block(_fn_ast(helper).body, env, cls, depth + 1)
+                        if r is not None:
+                            return r
+        if (".mean()" in src or "torch.mean(" in src) and isinstance(st, (ast.Return, ast.Assign)):
             return "mc"
     return None
 
@@ -602,7 +683,7 @@ def translate_elbo_branches():
             for entropy in (False, True):
                 for rank in (1, 2):
                     for last1 in (False, True):
-                        b = _elbo_block(node.body, {"score": score, "entropy": entropy, "rank": rank, "last1": last1})
+                        b = _elbo_block(node.body, {"score": score, "entropy": entropy, "rank": rank, "last1": last1}, ELBO)
                         b = b or "unknown"
                         ok = ok and b != "unknown"
                         table.append((score, entropy, rank, last1, b))
